@@ -464,3 +464,25 @@ class MainWiring:
         else:
             yield "ensures.channel.file_when_given", o[0] == "wallet.export_wallet" and not o[1] and o[2].get("file_path") is f["file"] and set(o[2]) == {"file_path", "data"}
         yield "ensures.order", names.index("wallet.generate") < names.index(o[0]) and names[-1] == o[0]
+
+
+CANARIES = []
+
+
+class CanaryParanoiaKeepsBip85(ParanoiaMode):
+    """must FAIL: spec whitelisting BIP85"""
+    props = ("C15",)
+
+    def post(self, c, I, out):
+        if out.returned:
+            res = c.deref(out.value).d
+            yield "canary.bip85_kept", ("BIP85" in I.d) == ("BIP85" in res)
+
+
+class CanaryAccountMax(AccountIndex):
+    """must FAIL: spec accepting account 2^31 - 1"""
+    props = ("C20",)
+    lo, hi = 0, 2 ** 31
+
+
+CANARIES += [CanaryParanoiaKeepsBip85(), CanaryAccountMax()]
